@@ -461,6 +461,20 @@ def h_heuristics(env):
         agents.append(AgentDef(a, **kw))
     agentsdef = agents if p.get("agents_as", "list") == "list" else {a.name: a for a in agents}.values()
     hints, must_host = make_hints(p.get("hints", "none"), cg, names)
+    # ---- a first, unrelated distribution in the same process: the same computation and agent names with other (concrete)
+    # footprints, roomy agents, no hints. Its outcome is not judged; whatever it leaves in module-level state (a cache keyed
+    # by computation name ...) is then visible to the call under contract, and the counterexample replays natively.
+    import random as _pyr
+    _wr = _pyr.Random(5)
+    if meth == "adhoc":
+        mod.shuffle, mod.choice = _wr.shuffle, _wr.choice
+    elif hasattr(mod, "random"):
+        mod.random = _wr
+    try:
+        mod.distribute(cg, [AgentDef(a, capacity=1000) for a in names], hints=None,
+                       computation_memory=lambda n: 0, communication_load=lambda n, t: 0)
+    except Exception:  # noqa - not judged
+        pass
     rnd = Rnd(env, p.get("max_perms", 6), fixed=p.get("rnd") == "fixed")
     if meth == "adhoc":
         mod.shuffle = rnd.shuffle
